@@ -863,6 +863,10 @@ CHECKS['C10'] = ConcCheck('C10', is_c10, CONC_TEXT)
 for pid in ('C02', 'C03', 'C10'):
     # machine tie: the thread-local arithmetic of the machines = the kernels translated from the source on every run
     CHECKS[pid].propfiles = [f'Props/{pid}.v', 'Props/KTie.v']
+for pid in ('C02', 'C03'):
+    # access discipline of the translated data-touching functions: no buffer cell is touched before an availability check has covered
+    # it nor after advance has published it away (DT_access_inside_window over every DT_* statement)
+    CHECKS[pid].propfiles = [f'Props/{pid}.v', 'Props/KTie.v', 'Props/DTie.v']
 
 
 # ------------------------------------------------------------------------------------------- C17 (vmem)
